@@ -126,6 +126,8 @@ def scan(state, groups, tid):
     plats = [{k: float(P[k][a + 1]) for k in NAMES} for a, b in runs]
 
     def eosbal(pt_, g):
+        if pt_["p"] < 2e-3 * scale["p"]:
+            return {}                      # three decades down a fan the table's own integration error (0.7 %) exceeds any EOS tolerance
         if jwl:
             f = float(jwl_f(pt_["rho"], g, kw))
             return {"eos": E.e8([pt_["p"], -(g - 1) * pt_["rho"] * pt_["e"], -f], max(abs(pt_["p"]), abs(f)))}
@@ -171,6 +173,15 @@ def scan(state, groups, tid):
                 bal = {"mass": E.e8([ml, -mr], scale["rho"] * cs),
                        "mom": E.e8([ml * wl, L["p"], -mr * wr, -R["p"]]),
                        "ener": E.e8([ml * (L["e"] + wl * wl / 2), L["p"] * wl, -mr * (R["e"] + wr * wr / 2), -R["p"] * wr], scale["p"] * cs)}
+                # the located position is good to one smeared cell at each of the two times: the speed to ds = 2 cells / t; the flux
+                # balances inherit ds x (jump of the conserved density), passed to the specification as slack (as for the integrals)
+                ds = 2.0 * dxcell / t
+                EL, ER = L["rho"] * (L["e"] + L["u"] ** 2 / 2), R["rho"] * (R["e"] + R["u"] ** 2 / 2)
+                Ub = [max(abs(ml), abs(mr), scale["rho"] * cs), max(abs(ml * wl), abs(L["p"]), abs(mr * wr), abs(R["p"])),
+                      max(abs(ml * (L["e"] + wl * wl / 2)), abs(L["p"] * wl), abs(mr * (R["e"] + wr * wr / 2)), abs(R["p"] * wr), scale["p"] * cs)]
+                jslack = {"mass": ds * abs(L["rho"] - R["rho"]) / Ub[0], "mom": ds * abs(L["rho"] * L["u"] - R["rho"] * R["u"]) / Ub[1],
+                          "ener": ds * abs(EL - ER) / Ub[2], "speed": ds / cs}
+                jslack = {k_: int(min(10**8, round(1e8 * v_))) for k_, v_ in jslack.items()}
                 dp = abs(L["p"] - R["p"]) / scale["p"]; du = abs(L["u"] - R["u"]) / max(scale["u"], cs)
                 kind = "contact" if (dp < 1e-6 and du < 1e-6) else "shock"
                 if kind == "shock":
@@ -180,7 +191,7 @@ def scan(state, groups, tid):
                         # not a shock; nothing is concluded from this profile (strong expansive jumps are still judged)
                         stats["pattern"] = "unresolved"
                         return [], stats
-                ev.append({"k": "Jump", "tid": tid, "kind": kind, "ahead": "L" if (ml + mr) > 0 else "R", "bal": bal, "s": E.sl(sp), "x": E.sl(abs(xi) + 1e-300),
+                ev.append({"k": "Jump", "tid": tid, "kind": kind, "ahead": "L" if (ml + mr) > 0 else "R", "bal": bal, "slack": jslack, "s": E.sl(sp), "x": E.sl(abs(xi) + 1e-300),
                            "L": {k: E.sl(v) for k, v in L.items()}, "R": {k: E.sl(v) for k, v in R.items()},
                            "cont": {"p": E.e8([L["p"], -R["p"]]), "u": E.e8([L["u"], -R["u"]], cs), "s": E.e8([sp, -0.5 * (L["u"] + R["u"])], cs)}})
                 stats["jumps"] += 1
